@@ -182,14 +182,15 @@ func sortPos(ps []token.Pos) {
 // both present in the unchanged tree (§4 #19, #20): a key that does not identify the *instance*
 // (Opt<Opt<T>>: the inner instance is taken for a recursive occurrence), and a hit that returns the
 // untranslated input for a *sibling* occurrence (Opt<A> * Opt<B>).  Decided:
-//   (1) every key handed to SSetHasKey/SSetPut/TMemoTryFind/TMemoPut is uniToKey / rtToKey of the
-//       arm's payload (name and type arguments; closed forms pinned);
-//   (2) a *visited set* (hit ⇒ skip) is used only where skipping a repeated instance loses nothing:
-//       the hit branch yields the empty list (the results are concatenated and deduplicated later);
-//   (3) a *memo* (TMemo) follows the placeholder discipline, read off the un-normalised blocks:
-//       the hit branch returns the looked-up value; the miss branch first stores the traversal's own
-//       input under the key (a recursive occurrence gets the original type and ends the recursion),
-//       and before returning stores the value it returns (a sibling occurrence gets the translation).
+//
+//	(1) every key handed to SSetHasKey/SSetPut/TMemoTryFind/TMemoPut is uniToKey / rtToKey of the
+//	    arm's payload (name and type arguments; closed forms pinned);
+//	(2) a *visited set* (hit ⇒ skip) is used only where skipping a repeated instance loses nothing:
+//	    the hit branch yields the empty list (the results are concatenated and deduplicated later);
+//	(3) a *memo* (TMemo) follows the placeholder discipline, read off the un-normalised blocks:
+//	    the hit branch returns the looked-up value; the miss branch first stores the traversal's own
+//	    input under the key (a recursive occurrence gets the original type and ends the recursion),
+//	    and before returning stores the value it returns (a sibling occurrence gets the translation).
 var guardPins = map[string]string{
 	"SSetHasKey":   "#1(dict.TryFind(p0.Dict, p1))",
 	"SSetPut":      "seq[dict.Add(p0.Dict, p1, true)]",
